@@ -12,6 +12,8 @@ CRATES = {
     "core": dict(dir="core", features="server,client,async-client,http-helpers", art="jsonrpsee_core"),
     "server": dict(dir="server", features=None, art="jsonrpsee_server"),
     "http-client": dict(dir="client/http-client", features=None, art="jsonrpsee_http_client"),
+    # a fixture crate under /verif whose only content is `rpc` macro invocations: its MIR is the macro's expansion (C17)
+    "fixture17": dict(dir=os.path.join(VERIF, "fixture17"), features=None, art="jv_fixture17", sync=True),
 }
 
 _cache = {}
@@ -28,7 +30,14 @@ def dump_mir(crate):
     cmd += ["--", "--emit=mir", "-C", "debug-assertions=off", "-C", "overflow-checks=on"]
     env = dict(os.environ, CARGO_TARGET_DIR=tdir, CARGO_NET_OFFLINE="true")
     t0 = time.time()
-    p = subprocess.run(cmd, cwd=os.path.join(REPO, c["dir"]), env=env, capture_output=True, text=True)
+    cwd = os.path.join(REPO, c["dir"])
+    if c.get("sync"):
+        # out-of-tree crate with path dependencies on /repo: build a copy under .work with /repo's lock file
+        cwd = os.path.join(WORK, crate)
+        os.makedirs(cwd, exist_ok=True)
+        subprocess.run(["rsync", "-a", "--delete", "--exclude", "target", "--exclude", "Cargo.lock", c["dir"] + "/", cwd + "/"], check=True)
+        shutil.copy(os.path.join(REPO, "Cargo.lock"), os.path.join(cwd, "Cargo.lock"))
+    p = subprocess.run(cmd, cwd=cwd, env=env, capture_output=True, text=True)
     if p.returncode != 0:
         raise RuntimeError(f"MIR dump of {crate} failed:\n{p.stderr[-3000:]}")
     files = sorted(glob.glob(os.path.join(tdir, "debug", "deps", c["art"] + "-*.mir")), key=os.path.getmtime)
